@@ -299,21 +299,43 @@ def check_stero_from_geometry(prog: Program, res: Result) -> None:
     identifiers and the coordinates of exactly those atoms."""
     fi = prog.fn(f"{XYZ}:stero_from_geometry")
     t = ast.unparse(fi.node)
-    checks = [
-        ("atom tuple = (atom, *bonded neighbours)",
-         "atom_stereo_tup = (atom, *first_nbrs)" in t
-         and "first_nbrs = smg.bonded_to(atom)" in t),
-        ("coordinates taken for exactly that tuple",
-         "atom_stereo_from_coords(atom_stereo_tup, geo.coords.take(atom_stereo_tup, axis=0))" in t),
-        ("planar-bond tuple and its coordinates agree",
-         "_planar_bond_from_coords(stereo_atoms, geo.coords.take(stereo_atoms, axis=0))" in t),
-        ("planar-bond tuple = (nbrs of atom, atom, nbr, nbrs of nbr)",
-         "stereo_atoms = (*first_nbrs_reduced, atom, nbr, *second_neighbors)" in t),
-    ]
-    for what, ok in checks:
+    # the coordinates handed to a perception function are those of exactly
+    # the atoms handed to it, in the same order
+    n = 0
+    for c in ast.walk(fi.node):
+        if isinstance(c, ast.Call) and call_name(c) in (
+                "atom_stereo_from_coords", "_planar_bond_from_coords") and \
+                len(c.args) == 2:
+            n += 1
+            ids, co = c.args
+            inst = f"stero_from_geometry: {call_name(c)}: coordinates of exactly the atoms passed"
+            m = None
+            if isinstance(co, ast.Call) and isinstance(co.func, ast.Attribute) \
+                    and co.func.attr == "take" and co.args:
+                m = norm(co.args[0])
+            elif isinstance(co, ast.Subscript):
+                m = norm(co.slice)
+            if m is None:
+                res.unrecognised("R-POS-ID", inst, fi.loc(c),
+                                 f"coordinate selection `{norm(co, 60)}`")
+            elif m in (norm(ids), f"list({norm(ids)})", f"[*{norm(ids)}]"):
+                res.ok("R-POS-ID", inst, fi.loc(c))
+            else:
+                res.bad("R-POS-ID", f"stero_from_geometry: {norm(c, 80)}",
+                        fi.loc(c), f"{inst}: atoms `{norm(ids)}` but "
+                        f"coordinates of `{m}`", instance=inst)
+    if n < 2:
+        res.unrecognised("R-POS-ID", "stero_from_geometry perception calls",
+                         fi.loc(), f"{n} calls found")
+    for what, ok in (
+            ("atom tuple = (atom, *bonded neighbours)",
+             "atom_stereo_tup = (atom, *first_nbrs)" in t
+             and "first_nbrs = smg.bonded_to(atom)" in t),
+            ("planar-bond tuple = (nbrs of atom, atom, nbr, nbrs of nbr)",
+             "stereo_atoms = (*first_nbrs_reduced, atom, nbr, *second_neighbors)" in t)):
         inst = f"stero_from_geometry: {what}"
         if ok:
             res.ok("R-POS-ID", inst, fi.loc())
         else:
-            res.bad("R-POS-ID", inst, fi.loc(), f"{inst}: pattern not found",
-                    instance=inst)
+            res.unrecognised("R-POS-ID", inst, fi.loc(), "construction of "
+                             "the neighbour tuple not recognised")
